@@ -9,6 +9,7 @@ import Mfi.Gen.Oracles
 import Mfi.Lemmas.ConstL
 import Mfi.Lemmas.AccL
 import Mfi.Props.C08
+import Mfi.Props.C02
 
 namespace Mfi.Props.C20
 open Mfi Mfi.Fx Mfi.Integr
@@ -374,5 +375,23 @@ theorem unclassified_constraints_pinned :
        (.DriftWithdraw, .f_integration_acc_2, 471323873936025127), (.DriftWithdraw, .f_integration_acc_2, 1377500195096470279),
        (.DriftWithdraw, .f_integration_acc_1, 1555694171009604275)] :=
   Mfi.Props.C08.unclassified_constraints_pinned
+
+/-- **fails closed on a venue that answers something else than announced** (instruction level, model Mfi/Model/Venue.lean
+    diffed through the real kamino_deposit by the `venue` family): when the collateral in the bank's obligation moved by two
+    units or more away from marginfi's own conversion of the deposit, the deposit is refused and nothing is booked -/
+theorem kamino_deposit_rejects_misreport {now expected pre post : Int} {b : Mfi.Bank.Bank} {bal : Option Mfi.Bank.Balance}
+    (hm : 1 < (post - pre) - expected ∨ 1 < expected - (post - pre)) :
+    ∀ o, Mfi.Venue.kaminoDeposit now b bal expected pre post ≠ .ok o :=
+  Mfi.Props.C02.kamino_deposit_rejects_misreport hm
+
+/-- an accepted Kamino withdrawal took exactly the collateral asked for out of the obligation and paid out what arrived,
+    which is within one unit of marginfi's own conversion of that collateral -/
+theorem kamino_withdraw_checked {now amount obPre obPost vPre vPost : Int} {all : Bool} {expectedOf : Int → Int}
+    {b : Mfi.Bank.Bank} {x : Mfi.Bank.Balance} {o : Mfi.Venue.WOut}
+    (h : Mfi.Venue.kaminoWithdraw now b (some x) amount all expectedOf obPre obPost vPre vPost = .ok o) :
+    obPre - obPost = o.collateral ∧ o.paid = vPost - vPre ∧
+    o.paid - expectedOf o.collateral ≤ 1 ∧ expectedOf o.collateral - o.paid ≤ 1 := by
+  obtain ⟨h1, h2, _, h4, h5, _⟩ := Mfi.Props.C02.kamino_withdraw_spec h
+  exact ⟨h1, h2, h4, h5⟩
 
 end Mfi.Props.C20
